@@ -35,6 +35,7 @@ def run(ctx, sess):
     ctx.rule('C03.m', 'repair appends at the end of the file: in jls_core_repair_fsr no path leads from a call that moves the file position (seek, chunk read) to a call that can append chunks (summary reductions, track close) without passing jls_raw_seek_end')
     ctx.rule('C03.o', 'repair counts every chunk once: the calls that add the chunk just visited to the rebuilt level above (jls_core_fsr_summaryN / jls_core_fsr_summary1) run only while the flag set at a descent is clear, and the flag is cleared after the first chunk of the lower level')
     ctx.rule('C03.p', 'repair places every block by its own sample id: in the level-0 walk of the FSR rebuild a data chunk is added to the rebuilt level 1 only behind a compare of its header timestamp with the id expected after the previous chunk (blocks that were left out leave no chunk in the chain; a chunk that follows them cannot be placed and ends the signal)')
+    ctx.rule('C03.q', 'repair validates a copied chunk against that chunk: a compare with the length of the read buffer (self->buf->length) that involves data copied out of the buffer earlier has no chunk read between the copy and the compare - after another read the buffer describes a different chunk (an index was checked against the length of the summary that follows it, and a file cut inside jls_wr_close could not be opened)')
     ctx.rule('C03.n', 'repair copies a chunk into a typed buffer only after checking what it is: every memcpy of the bytes just read into a level / sample buffer is preceded by a compare of the chunk tag and by a compare of the length with the capacity of the destination')
     ctx.rule('C03.d', 'truncation is reachable only from the repair branch of jls_rd_open')
     ra(ctx, P)
@@ -50,6 +51,7 @@ def run(ctx, sess):
     repair_copy_rule(ctx, P)
     repair_descent_rule(ctx, P, 'C03.o')
     repair_continuity_rule(ctx, P, 'C03.p')
+    repair_length_rule(ctx, P, 'C03.q')
     end_at_end_rule(ctx, P)
     from .c14 import head_table_rule, WRITER_ROOT_PREFIXES
     roots = sorted(f.name for f in P.all_functions() if f.api and f.name.startswith(WRITER_ROOT_PREFIXES))
@@ -660,3 +662,61 @@ def repair_continuity_rule(ctx, P, rule):
                'the timestamp of the chunk just read is compared with the id expected after the previous chunk' if (guards and w is None) else
                'every chunk of the data chain is appended to the rebuilt level 1 as if it followed the previous one: after blocks that were left out (constant data, or on request) the index has fewer entries than blocks, the reported length exceeds what can be read and the summaries sit at the wrong sample ranges',
                w.render() if w else None)
+
+
+
+def repair_length_rule(ctx, P, rule):
+    from .. import df
+    fn = P.fn('jls_core_repair_fsr')
+    copies = []
+    for mc in fn.calls(('memcpy', '__builtin_memcpy', '__builtin___memcpy_chk')):
+        srcp = fn.path(strip_casts(mc.args[1]))
+        if srcp is not None and srcp.last_field() == 'start':
+            copies.append((mc, show(strip_casts(mc.args[0]))))
+    reads = list(fn.calls('jls_core_rd_chunk'))
+    n = 0
+    for b in fn.blocks.values():
+        c = strip_casts(b.cond) if b.cond is not None else None
+        if c is None or c.get('op') != 'bin' or c['o'] not in ('<', '<=', '>', '>='):
+            continue
+        if not any(m.get('op') == 'member' and m.get('field') == 'length' and m.get('rec') == 'jls_buf_s' for m in walk(c)):
+            continue
+        # what the other side derives from: follow locals back to a copied object
+        texts = set()
+        work = [m for m in walk(c) if m.get('op') == 'ref' and m.get('rk') == 'local']
+        seen = set()
+        while work:
+            m = work.pop()
+            if m['name'] in seen:
+                continue
+            seen.add(m['name'])
+            for e_ in fn.events():
+                rhs = None
+                if e_.k == 'decl' and e_.name == m['name']:
+                    rhs = e_.e
+                elif e_.k == 'store' and strip_casts(e_.store_parts()[0]).get('name') == m['name'] and e_.store_parts()[2] == '=':
+                    rhs = e_.store_parts()[1]
+                if rhs is None:
+                    continue
+                texts.add(show(strip_casts(rhs)))
+                work.extend(x for x in walk(rhs) if x.get('op') == 'ref' and x.get('rk') == 'local')
+        anchor = b.events[-1] if b.events else None
+        for mc, dst in copies:
+            if dst not in texts or anchor is None:
+                continue
+            n += 1
+            w = None
+            for r_ in reads:
+                w1 = find_path(fn, mc, lambda e2, facts: 'target' if e2 is r_ else ('stop' if e2 is mc else None), refine=False)
+                if w1 is None:
+                    continue
+                w2 = find_path(fn, r_, lambda e2, facts: 'stop' if e2 is mc else ('target' if e2 is anchor else None), refine=False)
+                if w2 is not None:
+                    w = w2
+                    break
+            ctx.ob(rule, w is None, fn.name, 'length check of the copy of %s' % dst[:30], anchor.where(),
+                   'no chunk read between the copy and the compare with the buffer length' if w is None else
+                   'the data was copied out of the read buffer, another chunk was read, and only then is its size compared with self->buf->length - the length of the other chunk: a short chunk that follows (an empty summary at close) makes a valid index look too long and the open fails',
+                   w.render() if w else None)
+    ctx.ob(rule, True, fn.name, 'compares with the read buffer length examined', fn.where(),
+           '%d copies out of the read buffer, %d compares of copied data with self->buf->length' % (len(copies), n))
